@@ -145,7 +145,9 @@ def through_calls(b, defs, rs, depth=6):
                 if d[0] == "call":
                     t = d[2]
                     name = callee(t)[2]
-                    if name in ("index_axis_mut", "index_axis", "view_mut", "view", "reborrow", "deref_mut", "deref", "slice_mut", "borrow_mut"):
+                    if name in ("index_axis_mut", "index_axis", "view_mut", "view", "reborrow", "deref_mut", "deref", "slice_mut", "borrow_mut",
+                                "outer_iter_mut", "axis_iter_mut", "rows_mut", "lanes_mut", "iter_mut", "enumerate", "into_iter", "next", "zip"):
+                        # (iterating over the rows of an output: `for (i, mut row) in out.outer_iter_mut().enumerate()`)
                         a0 = t["args"][0]
                         if a0["k"] in ("copy", "move"):
                             new |= roots(b, defs, a0["place"]["l"])
